@@ -35,6 +35,11 @@ def run(prog, rep):
     rep.expect_min("C03.grid", 1)
     from .purity import row as _stateless_row
     rep.part(_stateless_row, prog, rep, "C03", 2)
+    # "when no sample is supplied n = int(100/alpha) points are drawn": the model's draw_sample(n) must draw n new points
+    from .purity import fresh_draw
+    rep.part(fresh_draw, prog, rep, "C03.draw")
+    rep.explanation += (" C03.draw: draw_sample of every joint model reads no attribute that is written between calls (a remembered sample has the "
+                        "length of an earlier request): the n points asked for are n new points.")
 
 def default_n(prog, rep, cls, rule):
     fn = prog.func(f"{cls}.__init__")
